@@ -987,21 +987,19 @@ func marshalTo(read *binary.BinaryProtocol, write *binary.BinaryProtocol, from *
 // GetByInt returns a sub node at the given key from a MAP value.
 func (self Value) GetByStr(key string) (v Value) {
 	n := self.Node.GetByStr(key)
-	vd := self.Desc.Elem()
 	if n.IsError() {
 		return wrapValue(n, nil)
 	}
-	return wrapValue(n, vd)
+	return wrapValue(n, self.Desc.Elem())
 }
 
 // GetByInt returns a sub node at the given key from a MAP value.
 func (self Value) GetByInt(key int) (v Value) {
 	n := self.Node.GetByInt(key)
-	vd := self.Desc.Elem()
 	if n.IsError() {
 		return wrapValue(n, nil)
 	}
-	return wrapValue(n, vd)
+	return wrapValue(n, self.Desc.Elem())
 }
 
 // Index returns a sub node at the given index from a LIST value.
@@ -1074,9 +1072,14 @@ ret:
 
 // Field returns a sub node at the given field id from a MESSAGE value.
 func (self Value) Field(id proto.FieldNumber) (v Value) {
+	// an error value (the result of a failed getter) has no descriptor
+	if err := self.should("Field", proto.MESSAGE); err != "" {
+		return errValue(meta.ErrUnsupportedType, err, nil)
+	}
+
 	rootLayer := self.IsRoot
 	msgDesc := self.Desc.Message()
-	 
+
 	n, d := self.Node.Field(id, rootLayer, msgDesc)
 
 	if n.IsError() {
